@@ -48,6 +48,10 @@ Definition p_le := p_cmp Z.leb.
 Definition p_gt := p_cmp (fun x y => y <? x).
 Definition p_ge := p_cmp (fun x y => y <=? x).
 
+(* int arithmetic (bool is an int); anything else is a TypeError *)
+Definition p_add (a b : pyv) : pyv := match as_int a, as_int b with Some x, Some y => PInt (x + y) | _, _ => PErr end.
+Definition p_sub (a b : pyv) : pyv := match as_int a, as_int b with Some x, Some y => PInt (x - y) | _, _ => PErr end.
+
 Definition p_in (a l : pyv) : pyv :=
   match a, l with
   | PErr, _ | _, PErr => PErr
